@@ -89,6 +89,17 @@ class HistRunner:
                 p.sources[n]['i'] += 1
             p.write_source(self.top, n, self.clock)
             m.touch_src(n)
+        elif k == 'edit_back':
+            n = op[1]
+            if p.sources[n]['r'] <= 0:
+                return False
+            p.sources[n]['r'] -= 1          # the bytes an earlier version had, with a new mtime
+            p.write_source(self.top, n, self.clock)
+            m.touch_src(n)
+        elif k == 'stampflip':
+            n = op[1]
+            p.targets[n]['stamp'] = not p.targets[n].get('stamp')
+            write_file(os.path.join(self.top, n + '.cfg'), p.cfg_text(n))      # read by the script, not a declared dependency
         elif k == 'rm':
             n = op[1]
             if os.path.lexists(self.path(n)) and n not in p.user:
@@ -128,7 +139,15 @@ class HistRunner:
             n, how = op[1], op[2]
             data = ('user %s v%d\n' % (n, m.srcver.get(n, 0) + 1)).encode() * (1 + m.srcver.get(n, 0) % 3)
             fp = self.path(n)
-            if how == 'replace' or not os.path.lexists(fp):
+            if how == 'symlink':
+                # the user's file is a symbolic link to a file of theirs
+                ud = fp + '.userdata'
+                write_file(ud, data, self.clock)
+                if os.path.lexists(fp):
+                    os.unlink(fp)
+                os.symlink(os.path.basename(ud), fp)
+                self.clock.tick(fp)
+            elif how == 'replace' or not os.path.lexists(fp):
                 tmp = fp + '.usertmp'
                 write_file(tmp, data)
                 os.rename(tmp, fp)
